@@ -79,6 +79,27 @@ def node_phase(chk, ids, mates, draws, pool, n_mates=40, n_draws=20, n_pool=20, 
             raise vlib.ToolError("Trace_Nodes did not accept the whole of %s: %s" % (ef, r.error or r.stdout[-1500:]))
         if r.viols("ROOT"):
             raise vlib.ToolError("unusable root in %s: %s" % (ef, r.viols("ROOT")[0]))
+        # root level of the same traces as a behaviour of SearchCtl.tla (its own actions, Trace_SearchCtl.tla)
+        pf = ef[:-7] + ".ctl.ndjson"
+        with open(ef) as f, open(pf, "w") as g:
+            for line in f:
+                if '"e":"root"' in line:
+                    g.write('{"e":"start"}\n')
+                elif line.startswith('{"e":"N"') and '"p":0,' in line:
+                    v = json.loads(line)["v"]
+                    g.write(json.dumps({"e": "N0", "a": v[0], "b": v[1], "d": v[2]}) + "\n")
+                elif line.startswith('{"e":"O"') and '"p":0,' in line:
+                    g.write(json.dumps({"e": "O0", "v": json.loads(line)["v"][0]}) + "\n")
+                elif line.startswith('{"e":"X"'):
+                    g.write('{"e":"X"}\n')
+                elif '"e":"end"' in line:
+                    g.write('{"e":"end"}\n')
+        c = vlib.tlc("Trace_SearchCtl", env={"TRACE": pf}, timeout=600, xmx="2g")
+        cs = c.stats("searchctl")
+        if c.error or not cs:
+            raise vlib.ToolError("Trace_SearchCtl failed on %s: %s" % (pf, c.error or c.stdout[-1500:]))
+        r.ctl = cs[0]
+        r.ctl["file"] = pf
         return ef, o, r
     res = [x for x in vlib.pmap(one, list(enumerate(parts)), n=min(16, len(parts))) if x]
     viols, drifts = [], []
@@ -86,6 +107,11 @@ def node_phase(chk, ids, mates, draws, pool, n_mates=40, n_draws=20, n_pool=20, 
     for ef, o, r in res:
         for k in ("searches", "events", "over_budget"):
             tot[k] += o[k]
+        tot["ctl_events"] = tot.get("ctl_events", 0) + r.ctl["events"]
+        if r.ctl["matched"] < r.ctl["events"]:
+            drifts.append({"what": "root-level-is-not-a-behaviour-of-SearchCtl", "detail": {"matched": r.ctl["matched"], "events": r.ctl["events"],
+                                                                                         "first_unmatched": r.ctl["first_unmatched"]},
+                           "source": r.ctl["file"], "at": r.ctl["matched"] + 1})
         for s in r.stats("nodes"):
             for k, v in s["counts"].items():
                 tot["counts"][k] = tot["counts"].get(k, 0) + v
